@@ -444,3 +444,514 @@ Proof.
   intros Hn E [L|[u (A & B & C)]]; [left; congruence|right].
   exists u. assert (u <> t) by (intros ->; congruence). rewrite upd_other by assumption. auto.
 Qed.
+
+Ltac simp_st := cbn [head tail inc outc next data thr].
+
+(* (2) mpsc push: new_node->next = NULL (the node is not in the chain yet) *)
+Lemma pnext_inv s al pl hl pe w t :
+  Inv s al pl hl pe w -> pc (thr s t) = PNext -> Inv (fst (step s t)) al pl hl pe w.
+Proof.
+  intros I Hpc. open_step Hpc. assert (HI := I). inv_split I.
+  assert (P := Ipp t). unfold ppart in P. rewrite Hpc in P.
+  assert (Hach : ~ In (arg (thr s t)) (stub :: pl)) by (apply Ipend; exact P).
+  assert (Hcn : forall i, i <= length pl -> cn pl i <> arg (thr s t)).
+  { intros i Hi E. apply Hach. rewrite <- E. apply cn_in; exact Hi. }
+  assert (Htd : todo (with_pc (thr s t) PXchg) = todo (thr s t)) by (apply todo_with_pc; congruence).
+  destruct (todo_frame (thr s) t _ _ _ Htd Itdnd Itddis Itd) as (X1 & X2 & X3).
+  constructor; simp_st; try assumption.
+  - apply flag_frame; auto.
+  - intros u. thr_cases u t.
+    + unfold ppart; cbn [pc arg with_pc]. split; [exact P|apply upd_same].
+    + assert (Q := Ipp u). unfold ppart in *. destruct (pc (thr s u)); auto.
+      * destruct Q as [Q1 Q2]. split; auto. unfold upd. destruct (Nat.eqb _ _); auto.
+      * destruct Q as [Q1 Q2]. split; auto. unfold upd. destruct (Nat.eqb _ _); auto.
+  - intros u. thr_cases u t; [|apply Iwp].
+    cbn [flag with_pc]. intros F. assert (W := Iwp t F). unfold wpart in *. rewrite Hpc in W.
+    cbn [pc with_pc]. exact W.
+  - apply uni_frame; auto. intros _. unfold holdsb. rewrite Hpc. reflexivity.
+  - unfold upd. destruct (Nat.eqb _ _); auto.
+  - intros i Hi. apply link_frame with (nx := next s); [congruence| |apply Ilink; exact Hi].
+    apply upd_other. apply Hcn. lia.
+Qed.
+
+(* (3) mpsc push: exchange on tail: the item enters the chain *)
+Lemma pxchg_inv s al pl hl pe w t :
+  Inv s al pl hl pe w -> pc (thr s t) = PXchg ->
+  Inv (fst (step s t)) al (pl ++ [arg (thr s t)]) hl (remove Nat.eq_dec (arg (thr s t)) pe) w.
+Proof.
+  intros I Hpc. open_step Hpc. assert (HI := I). inv_split I.
+  assert (P := Ipp t). unfold ppart in P. rewrite Hpc in P. destruct P as [Pin Pnx].
+  destruct (Ipend _ Pin) as [Ha0 Hach].
+  assert (Hle : forall i, i <= length pl -> cn (pl ++ [arg (thr s t)]) i = cn pl i)
+    by (intros; apply cn_app_le; auto).
+  destruct Ipre as [rest Hrest].
+  assert (HKE : length hl <= length pl) by (rewrite Hrest, app_length; lia).
+  assert (Hlen : length (pl ++ [arg (thr s t)]) = S (length pl)) by (rewrite app_length; cbn; lia).
+  match goal with |- context [upd (thr s) t ?X] => set (T' := X) end.
+  assert (Htd : todo T' = todo (thr s t)). { unfold todo. cbn [pc prog T']. rewrite Hpc. reflexivity. }
+  assert (Itd' : forall u b, In b (todo (thr s u)) -> b <> 0 /\
+             ~ In b (remove Nat.eq_dec (arg (thr s t)) pe) /\ ~ In b (stub :: pl ++ [arg (thr s t)])).
+  { intros u b Hb. destruct (Itd u b Hb) as (B0 & Bpe & Bch). split; [auto|split].
+    - intros H. apply in_remove in H. tauto.
+    - change (stub :: pl ++ [arg (thr s t)]) with ((stub :: pl) ++ [arg (thr s t)]).
+      intros H. apply in_app_or in H. destruct H as [H|[H|[]]]; auto. subst b. auto. }
+  destruct (todo_frame (thr s) t T' _ _ Htd Itdnd Itddis Itd') as (X1 & X2 & X3).
+  constructor; simp_st; rewrite ?Hlen; try assumption.
+  - apply flag_frame; auto.
+  - intros u. thr_cases u t.
+    + unfold ppart; cbn [pc prev arg T']. split.
+      * exists (length pl). rewrite Hlen. split; [lia|]. split.
+        -- rewrite Hle by lia. symmetry; exact Itail.
+        -- apply cn_app_last.
+      * rewrite Itail. exact Itnext.
+    + assert (Q := Ipp u). unfold ppart in *. destruct (pc (thr s u)) eqn:Hu; auto.
+      * apply in_in_remove; auto. intros E. apply n.
+        apply (Iuni u t); unfold holdsb; rewrite ?Hu, ?Hpc; auto.
+      * destruct Q as [Q1 Q2]. split; auto. apply in_in_remove; auto. intros E. apply n.
+        apply (Iuni u t); unfold holdsb; rewrite ?Hu, ?Hpc; auto.
+      * destruct Q as [[i (Hi & B & C)] Q2]. split; auto. exists i. rewrite Hlen.
+        rewrite !Hle by lia. split; [lia|auto].
+  - intros u. thr_cases u t.
+    + cbn [flag T']. intros F. assert (W := Iwp t F). unfold wpart in *. rewrite Hpc in W.
+      cbn [pc T']. unfold wnorm in *. rewrite Hle by lia. exact W.
+    + intros F. assert (W := Iwp u F). unfold wpart in *.
+      destruct (pc (thr s u)); unfold wnorm, wmid in *; rewrite ?Hlen;
+        repeat match goal with H : _ /\ _ |- _ => destruct H end;
+        rewrite ?Hle by lia; repeat split; auto; lia.
+  - destruct w; auto. destruct Iwk as (A1 & A2 & A3 & A4). repeat split; auto.
+    rewrite Hle by lia. exact A4.
+  - apply uni_frame; auto. intros _. unfold holdsb. rewrite Hpc. reflexivity.
+  - exists (rest ++ [arg (thr s t)]). rewrite Hrest, app_assoc. reflexivity.
+  - assert (L := remove_length _ _ Ipnd Pin). lia.
+  - intros b Hb. destruct (Ialog b Hb) as [X|X].
+    + left. apply in_or_app; auto.
+    + destruct (Nat.eq_dec b (arg (thr s t))) as [->|Hne].
+      * left. apply in_or_app. right. left. reflexivity.
+      * right. apply in_in_remove; auto.
+  - symmetry. apply cn_app_last.
+  - rewrite cn_app_last. exact Pnx.
+  - intros i Hi. destruct (Nat.eq_dec i (length pl)) as [->|Hne].
+    + right. exists t. rewrite upd_same. cbn [pc prev arg T']. rewrite Hle by lia.
+      rewrite cn_app_last. auto.
+    + rewrite !Hle by lia. apply link_frame with (nx := next s); [congruence|reflexivity|apply Ilink; lia].
+  - change (stub :: pl ++ [arg (thr s t)]) with ((stub :: pl) ++ [arg (thr s t)]).
+    apply nodup_snoc; auto.
+  - change (stub :: pl ++ [arg (thr s t)]) with ((stub :: pl) ++ [arg (thr s t)]).
+    intros H. apply in_app_or in H. destruct H as [H|[H|[]]]; auto.
+  - intros n. destruct (Idata n) as [D|[i (Hi & D)]]; [left; auto|right].
+    exists i. rewrite Hle by lia. auto.
+  - apply remove_nodup; auto.
+  - intros b Hb. apply in_remove in Hb. destruct Hb as [Hb Hne].
+    destruct (Ipend b Hb) as [B0 Bch]. split; auto.
+    change (stub :: pl ++ [arg (thr s t)]) with ((stub :: pl) ++ [arg (thr s t)]).
+    intros H. apply in_app_or in H. destruct H as [H|[H|[]]]; auto.
+Qed.
+
+(* (4) mpsc push: prev->next = new_node; push returns *)
+Lemma plink_inv s al pl hl pe w t :
+  Inv s al pl hl pe w -> pc (thr s t) = PLink -> Inv (fst (step s t)) al pl hl pe w.
+Proof.
+  intros I Hpc. open_step Hpc. assert (HI := I). inv_split I.
+  assert (P := Ipp t). unfold ppart in P. rewrite Hpc in P.
+  destruct P as [[i (Hi & Pp & Pa)] Pnx].
+  set (T' := if flag (thr s t) then with_pc (thr s t) GHead else next_op (thr s t)).
+  assert (Hfl : flag T' = flag (thr s t)).
+  { unfold T'. destruct (flag (thr s t)) eqn:F; [exact F|apply next_op_flag]. }
+  assert (Hho : holdsb T' = false).
+  { unfold T'. destruct (flag (thr s t)); [reflexivity|apply next_op_holdsb]. }
+  assert (Htd : todo T' = todo (thr s t)).
+  { unfold T'. destruct (flag _); [apply todo_with_pc; congruence|apply next_op_todo; congruence]. }
+  assert (Hother : forall j, j <= length pl -> j <> i -> cn pl j <> prev (thr s t)).
+  { intros j Hj Hne E. apply Hne. apply (cn_inj pl); auto; try lia; congruence. }
+  destruct (todo_frame (thr s) t T' _ _ Htd Itdnd Itddis Itd) as (X1 & X2 & X3).
+  constructor; simp_st; try assumption.
+  - apply flag_frame; auto.
+  - intros u. thr_cases u t.
+    + unfold T'. destruct (flag (thr s t)) eqn:F; [|apply next_op_pp].
+      unfold ppart; cbn [pc with_pc flag]. exact F.
+    + assert (Q := Ipp u). unfold ppart in *. destruct (pc (thr s u)) eqn:Hu; auto.
+      * destruct Q as [Q1 Q2]. split; auto. rewrite upd_other; auto. intros E.
+        destruct (Ipend _ Q1) as [_ X]. apply X. rewrite E, <- Pp. apply cn_in; lia.
+      * destruct Q as [[j (Hj & Qp & Qa)] Q2]. split; [exists j; auto|].
+        rewrite upd_other; auto. intros E.
+        assert (j = i) by (apply (cn_inj pl); auto; try lia; congruence). subst j.
+        apply n. apply (Iuni u t); unfold holdsb; rewrite ?Hu, ?Hpc; auto. congruence.
+  - intros u. thr_cases u t; [|apply Iwp].
+    rewrite Hfl. intros F. assert (W := Iwp t F). unfold T'; rewrite F.
+    unfold wpart in *. rewrite Hpc in W. cbn [pc with_pc]. exact W.
+  - intros u v. thr_cases u t; thr_cases v t; auto; rewrite ?Hho; discriminate.
+  - rewrite upd_other; auto. apply Hother; lia.
+  - intros j Hj. destruct (Nat.eq_dec j i) as [->|Hne].
+    + left. rewrite Pp, upd_same. symmetry; exact Pa.
+    + destruct (Ilink j Hj) as [L|[u (A & B & C)]].
+      * left. rewrite upd_other by (apply Hother; lia). exact L.
+      * right. exists u. assert (u <> t).
+        { intros ->. apply Hne. apply (cn_inj pl); auto; try lia; congruence. }
+        rewrite upd_other by assumption. auto.
+Qed.
+
+(* ---------- steps of the designated worker ---------- *)
+Lemma worker_facts s al pl hl pe w t :
+  Inv s al pl hl pe w -> in_get (pc (thr s t)) = true ->
+  flag (thr s t) = true /\ w = Some t /\ holdsb (thr s t) = false /\ todo (thr s t) = prog (thr s t) /\
+  (1 <= inc s)%Z /\ wpart (head s) (inc s) (outc s) al pl hl (thr s t).
+Proof.
+  intros I G. assert (P := i_pp _ _ _ _ _ _ I t). unfold ppart in P.
+  assert (F : flag (thr s t) = true) by (destruct (pc (thr s t)); try discriminate; exact P).
+  assert (Hw : w = Some t) by (apply (i_flag _ _ _ _ _ _ I); exact F).
+  assert (K := i_wk _ _ _ _ _ _ I). rewrite Hw in K.
+  repeat split; auto.
+  - unfold holdsb. destruct (pc (thr s t)); try discriminate; reflexivity.
+  - unfold todo. destruct (pc (thr s t)); try discriminate; reflexivity.
+  - apply (i_wp _ _ _ _ _ _ I). exact F.
+Qed.
+
+(* a step of the worker that may change head, the counters, the data fields,
+   the hand-out log and its own designation, but not the push side *)
+Lemma worker_step s al pl hl pe w t T' hd' ic' ov' hl' dt' w' :
+  Inv s al pl hl pe w ->
+  flag (thr s t) = true -> holdsb (thr s t) = false -> holdsb T' = false ->
+  todo T' = todo (thr s t) ->
+  ppart (next s) pl pe T' ->
+  (flag T' = true -> w' = w /\ (1 <= ic')%Z /\ wpart hd' ic' ov' al pl hl' T') ->
+  (flag T' = false -> w' = None /\ ic' = 0%Z /\ ov' = 0%Z /\ length al = length hl' /\
+                      hd' = cn pl (length hl')) ->
+  (exists rest, pl = hl' ++ rest) ->
+  (forall n, dt' n = n \/ exists i, i <= length hl' /\ cn pl i = n) ->
+  Inv {| head := hd'; tail := tail s; inc := ic'; outc := ov'; next := next s; data := dt';
+         thr := upd (thr s) t T'; nthr := nthr s |} al pl hl' pe w'.
+Proof.
+  intros I F H1 H2 Htd Hp Ht Hf Hpre Hdata. assert (HI := I). inv_split I.
+  assert (Hw : w = Some t) by (apply If; exact F).
+  assert (Hoth : forall u, u <> t -> flag (thr s u) = false).
+  { intros u Hne. destruct (flag (thr s u)) eqn:Fu; auto. exfalso. apply Hne.
+    apply (worker_unique _ _ _ _ _ _ u t HI); auto. }
+  destruct (todo_frame (thr s) t T' _ _ Htd Itdnd Itddis Itd) as (X1 & X2 & X3).
+  constructor; simp_st; try assumption.
+  - intros u. thr_cases u t.
+    + destruct (flag T') eqn:F'.
+      * destruct (Ht eq_refl) as [-> _]. split; auto.
+      * destruct (Hf eq_refl) as [-> _]. split; discriminate.
+    + rewrite (Hoth u) by assumption. split; [discriminate|].
+      intros E. exfalso. destruct (flag T') eqn:F'.
+      * destruct (Ht eq_refl) as [E' _]. congruence.
+      * destruct (Hf eq_refl) as [E' _]. congruence.
+  - intros u. thr_cases u t; auto.
+  - intros u. thr_cases u t.
+    + intros F'. apply Ht. exact F'.
+    + rewrite (Hoth u) by assumption. discriminate.
+  - destruct (flag T') eqn:F'.
+    + destruct (Ht eq_refl) as (-> & A & _). rewrite Hw. exact A.
+    + destruct (Hf eq_refl) as (-> & A). exact A.
+  - intros u v. thr_cases u t; thr_cases v t; auto; rewrite ?H2; discriminate.
+  - intros i Hi. apply link_frame with (nx := next s); auto.
+    intros E. unfold holdsb in H1. rewrite E in H1. discriminate.
+Qed.
+
+Ltac wfacts I t Hpc :=
+  let G := fresh "G" in
+  assert (G : in_get (pc (thr _ t)) = true) by (rewrite Hpc; reflexivity);
+  destruct (worker_facts _ _ _ _ _ _ t I G) as (F & Hw & Hh & Htd & H1i & W);
+  unfold wpart in W; rewrite Hpc in W; clear G.
+
+(* steps that only read: GHead, GNext, GData, GOutR, GCmpO, GCmpI, GOldR *)
+Lemma ghead_inv s al pl hl pe w t :
+  Inv s al pl hl pe w -> pc (thr s t) = GHead -> Inv (fst (step s t)) al pl hl pe w.
+Proof.
+  intros I Hpc. open_step Hpc. wfacts I t Hpc.
+  apply local_step; [exact I|exact Hh|reflexivity|reflexivity| | |].
+  - rewrite Htd. reflexivity.
+  - unfold ppart; cbn [pc flag]. exact F.
+  - intros _. unfold wpart; cbn [pc ph]. auto.
+Qed.
+
+Lemma gnext_inv s al pl hl pe w t :
+  Inv s al pl hl pe w -> pc (thr s t) = GNext -> Inv (fst (step s t)) al pl hl pe w.
+Proof.
+  intros I Hpc. open_step Hpc. wfacts I t Hpc. destruct W as [[Wh Wc] Wp].
+  apply local_step; [exact I|exact Hh| |reflexivity| | |].
+  - unfold holdsb; cbn [pc]. destruct (next s (ph (thr s t))); reflexivity.
+  - rewrite Htd. unfold todo; cbn [pc prog]. destruct (next s (ph (thr s t))); reflexivity.
+  - unfold ppart; cbn [pc flag]. destruct (next s (ph (thr s t))); exact F.
+  - intros _. unfold wpart; cbn [pc ph pn]. destruct (next s (ph (thr s t))) eqn:En.
+    + split; auto.
+    + inv_split I. destruct Ipre as [rest Hrest].
+      assert (HKE : length hl <= length pl) by (rewrite Hrest, app_length; lia).
+      rewrite Wp, Wh in En.
+      assert (HK : length hl < length pl).
+      { destruct (Nat.eq_dec (length hl) (length pl)) as [E|]; [|lia].
+        rewrite E, Itnext in En. discriminate. }
+      split; [split; assumption|]. split; [assumption|]. split; [|assumption].
+      destruct (Ilink _ HK) as [L|[u (A & B & C)]]; [congruence|].
+      assert (Q := Ipp u). unfold ppart in Q. rewrite A in Q. destruct Q as [_ Q].
+      rewrite B, En in Q. discriminate.
+Qed.
+
+Lemma gdata_inv s al pl hl pe w t :
+  Inv s al pl hl pe w -> pc (thr s t) = GData -> Inv (fst (step s t)) al pl hl pe w.
+Proof.
+  intros I Hpc. open_step Hpc. wfacts I t Hpc. destruct W as [Wm [Wh Wn]].
+  apply local_step; [exact I|exact Hh|reflexivity|reflexivity| | |].
+  - rewrite Htd. reflexivity.
+  - unfold ppart; cbn [pc flag]. exact F.
+  - intros _. unfold wpart; cbn [pc ph rd]. split; [exact Wm|]. split; [exact Wh|].
+    rewrite Wn. destruct (i_data _ _ _ _ _ _ I (cn pl (S (length hl)))) as [D|[i [Hi D]]]; [exact D|].
+    destruct Wm as (_ & HK & _). exfalso.
+    apply (cn_inj pl) in D; try lia. apply (i_nd _ _ _ _ _ _ I).
+Qed.
+
+Lemma goutr_inv s al pl hl pe w t :
+  Inv s al pl hl pe w -> pc (thr s t) = GOutR -> Inv (fst (step s t)) al pl hl pe w.
+Proof.
+  intros I Hpc. open_step Hpc. wfacts I t Hpc.
+  apply local_step; [exact I|exact Hh|reflexivity|reflexivity| | |].
+  - rewrite Htd. reflexivity.
+  - unfold ppart; cbn [pc flag]. exact F.
+  - intros _. unfold wpart; cbn [pc rd oc]. tauto.
+Qed.
+
+Lemma gcmpo_inv s al pl hl pe w t :
+  Inv s al pl hl pe w -> pc (thr s t) = GCmpO -> Inv (fst (step s t)) al pl hl pe w.
+Proof.
+  intros I Hpc. open_step Hpc. wfacts I t Hpc.
+  apply local_step; [exact I|exact Hh|reflexivity|reflexivity| | |].
+  - rewrite Htd. reflexivity.
+  - unfold ppart; cbn [pc flag]. exact F.
+  - intros _. unfold wpart; cbn [pc]. exact W.
+Qed.
+
+Lemma gcmpi_inv s al pl hl pe w t :
+  Inv s al pl hl pe w -> pc (thr s t) = GCmpI -> Inv (fst (step s t)) al pl hl pe w.
+Proof.
+  intros I Hpc. open_step Hpc. wfacts I t Hpc.
+  apply local_step; [exact I|exact Hh| |reflexivity| | |].
+  - unfold holdsb; cbn [pc with_pc]. destruct (oc (thr s t) =? inc s)%Z; reflexivity.
+  - rewrite Htd. unfold todo; cbn [pc prog with_pc]. destruct (oc (thr s t) =? inc s)%Z; reflexivity.
+  - unfold ppart; cbn [pc flag with_pc]. destruct (oc (thr s t) =? inc s)%Z; exact F.
+  - intros _. unfold wpart; cbn [pc with_pc]. destruct (oc (thr s t) =? inc s)%Z; exact W.
+Qed.
+
+Lemma goldr_inv s al pl hl pe w t :
+  Inv s al pl hl pe w -> pc (thr s t) = GOldR -> Inv (fst (step s t)) al pl hl pe w.
+Proof.
+  intros I Hpc. open_step Hpc. wfacts I t Hpc.
+  apply local_step; [exact I|exact Hh|reflexivity|reflexivity| | |].
+  - rewrite Htd. reflexivity.
+  - unfold ppart; cbn [pc flag]. exact F.
+  - intros _. unfold wpart; cbn [pc oc]. auto.
+Qed.
+
+(* (5) trypop: head := next; the item is taken *)
+Lemma gseth_inv s al pl hl pe w t :
+  Inv s al pl hl pe w -> pc (thr s t) = GSetH -> Inv (fst (step s t)) al pl hl pe w.
+Proof.
+  intros I Hpc. open_step Hpc. wfacts I t Hpc. destruct W as ([Wh Wc] & Wp & Wn & HK).
+  apply worker_step with (w := w) (hl := hl); [exact I|exact F|exact Hh|reflexivity| | | | | |].
+  - rewrite Htd. reflexivity.
+  - unfold ppart; cbn [pc flag with_pc]. exact F.
+  - intros _. split; [reflexivity|]. split; [exact H1i|].
+    unfold wpart; cbn [pc ph pn with_pc]. unfold wmid.
+    split; [split; [exact Wn|split; [exact HK|exact Wc]]|]. split; [congruence|exact Wn].
+  - cbn [flag with_pc]. rewrite F. discriminate.
+  - exact (i_pre _ _ _ _ _ _ I).
+  - exact (i_data _ _ _ _ _ _ I).
+Qed.
+
+(* (6) trypop: prev_head->data = prev_head_next->data *)
+Lemma gcopy_inv s al pl hl pe w t :
+  Inv s al pl hl pe w -> pc (thr s t) = GCopy -> Inv (fst (step s t)) al pl hl pe w.
+Proof.
+  intros I Hpc. open_step Hpc. wfacts I t Hpc. destruct W as (Wm & Wh & Wr).
+  apply worker_step with (w := w) (hl := hl); [exact I|exact F|exact Hh|reflexivity| | | | | |].
+  - rewrite Htd. reflexivity.
+  - unfold ppart; cbn [pc flag with_pc]. exact F.
+  - intros _. split; [reflexivity|]. split; [exact H1i|].
+    unfold wpart; cbn [pc rd with_pc]. split; assumption.
+  - cbn [flag with_pc]. rewrite F. discriminate.
+  - exact (i_pre _ _ _ _ _ _ I).
+  - intros n. destruct (Nat.eq_dec n (ph (thr s t))) as [->|Hne].
+    + right. exists (length hl). split; [lia|symmetry; exact Wh].
+    + rewrite upd_other by assumption. apply (i_data _ _ _ _ _ _ I).
+Qed.
+
+(* (7) out_count += 1 (the write); get_work returns MORE_WORK with rd *)
+Lemma goutw_inv s al pl hl pe w t :
+  Inv s al pl hl pe w -> pc (thr s t) = GOutW ->
+  Inv (fst (step s t)) al pl (hl ++ [rd (thr s t)]) pe w.
+Proof.
+  intros I Hpc. open_step Hpc. wfacts I t Hpc. destruct W as ((Wh & HK & Wc) & Wr & Wo).
+  assert (Hlen : length (hl ++ [rd (thr s t)]) = S (length hl)) by (rewrite app_length; cbn; lia).
+  apply worker_step with (w := w) (hl := hl); [exact I|exact F|exact Hh|reflexivity| | | | | |].
+  - rewrite Htd. reflexivity.
+  - unfold ppart; cbn [pc flag with_pc]. exact F.
+  - intros _. split; [reflexivity|]. split; [exact H1i|].
+    unfold wpart; cbn [pc with_pc]. unfold wnorm. rewrite Hlen. split; [exact Wh|lia].
+  - cbn [flag with_pc]. rewrite F. discriminate.
+  - destruct (i_pre _ _ _ _ _ _ I) as [rest Hrest]. destruct rest as [|r rest'].
+    { rewrite app_nil_r in Hrest. subst pl. lia. }
+    exists rest'. rewrite Wr, cn_S. subst pl.
+    rewrite app_nth2 by lia. rewrite Nat.sub_diag. cbn [nth]. rewrite <- app_assoc. reflexivity.
+  - intros n. destruct (i_data _ _ _ _ _ _ I n) as [D|[i [Hi D]]]; [left; exact D|right].
+    exists i. rewrite Hlen. split; [lia|exact D].
+Qed.
+
+(* (8) out_count = 0 *)
+Lemma gzero_inv s al pl hl pe w t :
+  Inv s al pl hl pe w -> pc (thr s t) = GZero -> Inv (fst (step s t)) al pl hl pe w.
+Proof.
+  intros I Hpc. open_step Hpc. wfacts I t Hpc. destruct W as ([Wh Wc] & Wo).
+  apply worker_step with (w := w) (hl := hl); [exact I|exact F|exact Hh|reflexivity| | | | | |].
+  - rewrite Htd. reflexivity.
+  - unfold ppart; cbn [pc flag with_pc]. exact F.
+  - intros _. split; [reflexivity|]. split; [exact H1i|].
+    unfold wpart; cbn [pc oc with_pc]. split; [exact Wh|]. split; [reflexivity|]. rewrite Wo. exact Wc.
+  - cbn [flag with_pc]. rewrite F. discriminate.
+  - exact (i_pre _ _ _ _ _ _ I).
+  - exact (i_data _ _ _ _ _ _ I).
+Qed.
+
+(* (9) sub_and_fetch on in_count: 0 -> EMPTY, the worker retires *)
+Lemma gsub_inv s al pl hl pe w t :
+  Inv s al pl hl pe w -> pc (thr s t) = GSub ->
+  Inv (fst (step s t)) al pl hl pe (if (inc s - oc (thr s t) =? 0)%Z then None else w).
+Proof.
+  intros I Hpc. open_step Hpc. wfacts I t Hpc. destruct W as (Wh & Wo & Wc).
+  assert (Hge : length hl <= length al).
+  { destruct (i_pre _ _ _ _ _ _ I) as [rest Hrest]. rewrite (i_len _ _ _ _ _ _ I), Hrest, app_length. lia. }
+  destruct (Z.eqb_spec (inc s - oc (thr s t)) 0) as [E|E].
+  - apply worker_step with (w := w) (hl := hl); [exact I|exact F|exact Hh|apply next_op_holdsb| | | | | |].
+    + apply next_op_todo. congruence.
+    + apply next_op_pp.
+    + rewrite next_op_flag. discriminate.
+    + intros _. split; [reflexivity|]. split; [exact E|]. split; [exact Wo|]. split; [lia|exact Wh].
+    + exact (i_pre _ _ _ _ _ _ I).
+    + exact (i_data _ _ _ _ _ _ I).
+  - apply worker_step with (w := w) (hl := hl); [exact I|exact F|exact Hh|reflexivity| | | | | |].
+    + rewrite Htd. reflexivity.
+    + unfold ppart; cbn [pc flag with_pc]. exact F.
+    + intros _. split; [reflexivity|]. split; [lia|].
+      unfold wpart; cbn [pc with_pc]. split; [exact Wh|lia].
+    + cbn [flag with_pc]. rewrite F. discriminate.
+    + exact (i_pre _ _ _ _ _ _ I).
+    + exact (i_data _ _ _ _ _ _ I).
+Qed.
+
+(* ------------------------------------------------------------------ *)
+Theorem linv_step x t : LInv x -> LInv (lstep x t).
+Proof.
+  unfold LInv, lstep. intros I.
+  destruct (pc (thr (base x) t)) eqn:Hpc; cbn [base alog plog hlog pend wk].
+  - apply padd_inv; assumption.
+  - apply pnext_inv; assumption.
+  - apply pxchg_inv; assumption.
+  - apply plink_inv; assumption.
+  - apply ghead_inv; assumption.
+  - apply gnext_inv; assumption.
+  - apply gseth_inv; assumption.
+  - apply gdata_inv; assumption.
+  - apply gcopy_inv; assumption.
+  - apply goutr_inv; assumption.
+  - apply goutw_inv; assumption.
+  - apply gcmpo_inv; assumption.
+  - apply gcmpi_inv; assumption.
+  - apply goldr_inv; assumption.
+  - apply gzero_inv; assumption.
+  - apply gsub_inv; assumption.
+  - unfold step. cbv zeta. rewrite Hpc. exact I.
+Qed.
+
+Theorem ireach_linv progs x : wf_progs progs -> ireach progs x -> LInv x.
+Proof.
+  intros WF. induction 1 as [|x t R IH].
+  - apply init_inv. exact WF.
+  - apply linv_step. exact IH.
+Qed.
+
+Theorem reachable_linv progs s :
+  wf_progs progs -> reachable M (init progs) s -> exists x, ireach progs x /\ LInv x /\ base x = s.
+Proof.
+  intros WF R. destruct (reach_ireach progs s R) as [x [Rx E]].
+  exists x. split; [exact Rx|]. split; [apply (ireach_linv progs); assumption|exact E].
+Qed.
+
+(* ---------------- the statements used by Properties_C17.v ---------------- *)
+
+(* designated worker: told (or about to be told) START_WORKING, not yet told EMPTY *)
+Definition designated (T : tst) : Prop :=
+  flag T = true /\ (in_get (pc T) = true \/ holdsb T = true).
+
+Lemma flag_designated s al pl hl pe w t :
+  Inv s al pl hl pe w -> flag (thr s t) = true -> designated (thr s t).
+Proof.
+  intros I F. split; [exact F|]. assert (P := i_pp _ _ _ _ _ _ I t). unfold ppart in P.
+  unfold holdsb. destruct (pc (thr s t)); cbn; auto; congruence.
+Qed.
+
+Lemma one_worker_of_inv s al pl hl pe w t u :
+  Inv s al pl hl pe w ->
+  (flag (thr s t) = true -> flag (thr s u) = true -> t = u) /\
+  (in_get (pc (thr s t)) = true -> in_get (pc (thr s u)) = true -> t = u) /\
+  (in_get (pc (thr s t)) = true -> flag (thr s t) = true).
+Proof.
+  intros I. split; [|split].
+  - apply (worker_unique _ _ _ _ _ _ t u I).
+  - intros A B. destruct (worker_facts _ _ _ _ _ _ t I A) as (Ft & _).
+    destruct (worker_facts _ _ _ _ _ _ u I B) as (Fu & _).
+    apply (worker_unique _ _ _ _ _ _ t u I); assumption.
+  - intros A. destruct (worker_facts _ _ _ _ _ _ t I A) as (Ft & _). exact Ft.
+Qed.
+
+Lemma each_once_of_inv s al pl hl pe w :
+  Inv s al pl hl pe w -> (exists rest, pl = hl ++ rest) /\ NoDup pl /\ NoDup hl.
+Proof.
+  intros I. assert (N := i_nd _ _ _ _ _ _ I). inversion N as [|? ? _ Npl]; subst.
+  destruct (i_pre _ _ _ _ _ _ I) as [rest Hrest]. split; [exists rest; exact Hrest|].
+  split; [exact Npl|]. rewrite Hrest in Npl. apply nodup_app_inv in Npl. tauto.
+Qed.
+
+Lemma drained_of_counts s al pl hl pe w :
+  Inv s al pl hl pe w -> length al = length hl ->
+  (forall a, In a al -> In a hl) /\ hl = pl /\ pe = [].
+Proof.
+  intros I E. destruct (i_pre _ _ _ _ _ _ I) as [rest Hrest].
+  assert (L := i_len _ _ _ _ _ _ I). rewrite Hrest, app_length in L.
+  assert (rest = []) by (destruct rest; [reflexivity|cbn in L; lia]).
+  assert (pe = []) by (destruct pe; [reflexivity|cbn in L; lia]).
+  subst rest pe. rewrite app_nil_r in Hrest. subst pl.
+  split; [|split; reflexivity].
+  intros a Ha. destruct (i_alog _ _ _ _ _ _ I a Ha) as [X|[]]. exact X.
+Qed.
+
+Lemma empty_drained_of_inv s al pl hl pe w t :
+  Inv s al pl hl pe w -> pc (thr s t) = GSub -> (inc s - oc (thr s t) = 0)%Z ->
+  (forall a, In a al -> In a hl) /\ hl = pl /\ pe = [].
+Proof.
+  intros I Hpc E. wfacts I t Hpc. destruct W as (_ & _ & Wc).
+  apply (drained_of_counts _ _ _ _ _ _ I). lia.
+Qed.
+
+Lemma no_stranded_of_inv s al pl hl pe w :
+  Inv s al pl hl pe w ->
+  ((exists a, In a al /\ ~ In a hl) \/ (0 < inc s)%Z) ->
+  exists t, designated (thr s t).
+Proof.
+  intros I H. destruct w as [t|] eqn:Ew.
+  - exists t. apply (flag_designated _ _ _ _ _ _ t I). apply (i_flag _ _ _ _ _ _ I). reflexivity.
+  - exfalso. destruct (i_wk _ _ _ _ _ _ I) as (A1 & A2 & A3 & A4).
+    destruct H as [[a [Ha Hn]]|H]; [|lia].
+    apply Hn. apply (drained_of_counts _ _ _ _ _ _ I A3). exact Ha.
+Qed.
+
+Lemma single_consumer_of_inv s al pl hl pe w t :
+  Inv s al pl hl pe w -> in_trypop (pc (thr s t)) = true ->
+  designated (thr s t) /\
+  (forall u, in_trypop (pc (thr s u)) = true -> u = t) /\
+  (pc (thr s t) = GNext \/ pc (thr s t) = GSetH -> ph (thr s t) = head s).
+Proof.
+  intros I Hp.
+  assert (Sub : forall p, in_trypop p = true -> in_get p = true) by (intros []; cbn; congruence).
+  destruct (worker_facts _ _ _ _ _ _ t I (Sub _ Hp)) as (F & _ & _ & _ & _ & W).
+  split; [apply (flag_designated _ _ _ _ _ _ t I F)|]. split.
+  - intros u Hu. apply (one_worker_of_inv _ _ _ _ _ _ u t I); apply Sub; assumption.
+  - unfold wpart in W. intros [E|E]; rewrite E in W; tauto.
+Qed.
